@@ -26,6 +26,7 @@ func Lint$1
 // file has no malformed line (and --silent is not given)
 func Lint
   props C08 C09 C17
+  requires @stream stream != nil
   requires @out lc.ReporterConfig.Output != nil && !typeis(lc.ReporterConfig.Output, "*bufio.Writer") && !typeis(lc.ReporterConfig.Output, "*encoding/csv.Writer")
   calluse ParseStreamCallback#1 lint
   modifies ghost(cbLen, cbErr, cbNode, cbStop, cbRet, cbLineNo, cbLine, cbHeader, cbElems, cbNElems, scRd, scPos, privLo, evOf, prOf, evOfPr, bufSticky, sinkFailed, sinkPend, prLen, prSink, prArg, prArgs)
